@@ -400,7 +400,7 @@ PROPS["C12"] = {
     "streams": [FAIL_STREAM],
     "rule": "FAIL: streams from the ENC generator (<= 1500 samples; all subframe kinds; frames precomputed (multi-thread) or not) "
             "written - half of the cases as a whole stream, the other half as a whole stream with 1..3 further metadata blocks or as ONE COMPONENT written directly (a frame, a frame header, a subframe, "
-            "the residual of a fixed / LPC subframe; index modulo the number present) - to a user sink implementing only the required methods that fails at call k, k absolute 0..59 or at a "
+            "the residual of a fixed / LPC subframe; index modulo the number present) - to a user sink implementing only the required methods that fails at call k (half of the cases: from call k on; the other half: ONCE, a transient error), k absolute 0..59 or at a "
             "per-mille position of the total call count incl. exactly the end. Observable: verdict (ok / err-sink / panic), number "
             "and digest of accepted calls, number of accepted bits; the stream is also written to a healthy sink before and after the failed write "
             "on the same thread (bytes must be equal). Non-trivial = failure after at least one accepted call.",
@@ -1172,6 +1172,7 @@ def run_streams(pid, spec, tier, seed, res, replay_cases=None):
     for st in spec["streams"]:
         n = st[tier]
         genv = dict(fv.ENV)
+        genv.update(st.get("gen_env", {}))
         if tier == "thorough":
             genv.update(st.get("thorough_env", {}))
         cases = list(replay_cases) if replay_cases is not None else \
@@ -1236,6 +1237,7 @@ def run_check(pid, spec, tier, seed, replay):
         st2["profiles"] = list(st["profiles"])
         st2["release_in_quick"] = True
         st2["quick"] = min(st2["quick"], 200)
+        st2["gen_env"] = {"VERIF_DLV_LYING_HINT": "1"}
         spec["streams"] = [st, st2]
     if spec.get("streams") == "ENC+CNT":
         spec["streams"] = [dict(ENC_STREAM), dict(CNT_STREAM)]
